@@ -104,7 +104,7 @@ bld("c02", "twin_c02_range_must_fail", ["C02"], "quick", "vacuity twin", RANGE_F
 bld("c02", "matched_grouping_2", ["C02"], "quick", "2 symbolic ops from {new_val_group, append_val}", GROUP_F, slots=[(1, [0, 1])] * 2)
 bld("c02", "matched_grouping_3", ["C02"], "thorough", "3 symbolic ops from {new_val_group, append_val}", GROUP_F, budget_s=1800, mem_gb=14, slots=[(1, [0, 1])] * 3)
 bld("c02", "matched_indices", ["C02"], "quick", "0..=3 push_index calls with indices over all of usize", GROUP_F)
-bld("c02", "matched_grouping_4", ["C02"], "thorough", "4 symbolic ops from {new_val_group, append_val}", GROUP_F, budget_s=3600, mem_gb=20, slots=[(1, [0, 1])] * 4)
+# matched_grouping_4: out of memory at 20 GB after 260 s (measured in the thorough tier) - not registered, outside the claim
 
 SRC_F = ["clap_builder::parser::ValueSource::{Ord,max,is_explicit}", "clap_builder::parser::MatchedArg::{set_source,source,check_explicit}"]
 bld("c06", "source_order", ["C06", "C03"], "quick", "all pairs of ValueSource", SRC_F)
